@@ -219,6 +219,9 @@ def run():
                     ck.event("volume_variation case ill-conditioned (not judged)")
             for key, what in bad:
                 ck.violation(key, what, dict(stream=["w", idx], case=desc, volume=vdesc))
+    if not ck.quick:
+        from tvf.contracts_run import run_suite_with_contracts
+        run_suite_with_contracts(ck, ['effective_sample_size', 'trim_weights'])
     ck.require_events("ESS contract evaluated", "trim_weights contract evaluated", "volume_variation affine invariance judged")
     return ck.finish(
         rule="weight vectors from VERIF_SEED: uniform, Dirichlet(alpha 0.01..10), tempering-like, 600-decade dynamic range, zeros, ties, "
